@@ -141,6 +141,19 @@ def run(ck):
         ck.ok("C03.1", short(agg), agg.where, f"all {len(apaths)} enumerated paths (loops unrolled 0/1/2) emit",
               f"{len(apaths)} paths")
 
+    # the first run starts from the first operation: with a single operation the one emission is (1, hits[0])
+    single = [pa for pa in apaths if pa.outcome != "raise" and
+              all(e.extra.get("iterations") == 0 for e in pa.events if e.kind == "loop-exit") and
+              any(e.kind == "loop-exit" for e in pa.events)]
+    for pa in single[:1]:
+        emits = [e for e in pa.events if e.kind == "yield"]
+        if len(emits) == 1:
+            t = emits[0].term
+            idxs = {x for x in T.subterms(t) if x[0] == "idx" and x[1] == hits}
+            ones = any(x == C(1) for x in T.subterms(t))
+            ck.judge(idxs == {T.mk_idx(hits, C(0))} and ones, "C03.1", short(agg) + ":first-run", where(agg, emits[0].node),
+                     "a single operation is emitted as one run of length 1 of that operation (the first run starts at hits[0])",
+                     found=T.show(t)[:160], required="run(1, hits[0])")
     # ---- C03.2
     if gen_q is None:
         raise AnalysisError("operation generator not found from cigarString")
